@@ -59,13 +59,28 @@ class Front:
         self.goal_log = None
 
     def setup_prelude(self, prelude_src):
-        """callees are built once; generated modules import them"""
+        """callees are built once; generated modules import them.  If the tree under test rejects
+        some of them (a mutation that makes the checker stricter), the others are kept: programs
+        calling a missing one then fail with NameError and count as rejected."""
         eb = self.exo_build
-        mod = eb.build_module(prelude_src)
-        self.prelude_name = mod.__name__
-        names = sorted(eb.procs_of(mod))
-        self.header = eb.HEADER + f"from {mod.__name__} import {', '.join(names)}\n"
-        return names
+        header = eb.HEADER
+        names, rejected = [], []
+        for chunk in prelude_src.split("@proc")[1:]:
+            src = "@proc" + chunk
+            try:
+                mod = eb.build_module(src, header=header)
+            except BaseException as e:  # noqa
+                if isinstance(e, (KeyboardInterrupt, SystemExit)):
+                    raise
+                rejected.append((src.split("(")[0].split()[-1], type(e).__name__, str(e)[:200]))
+                continue
+            new = sorted(eb.procs_of(mod))
+            new = [n for n in new if n not in names]
+            if new:
+                header += f"from {mod.__name__} import {', '.join(new)}\n"
+                names += new
+        self.header = header
+        return names, rejected
 
     def build(self, body_src):
         """-> (verdict, procedure or None, message)"""
@@ -610,20 +625,17 @@ def run(ctx):
         return
 
     front = Front(exo)
-    try:
-        front.setup_prelude(c03_gen.PRELUDE)
-    except BaseException as e:  # noqa
-        if isinstance(e, (KeyboardInterrupt, SystemExit)):
-            raise
-        ctx.violation("prelude-rejected:" + type(e).__name__,
-                      "the callee prelude (nine small safe procedures) is not accepted by the front end: "
-                      + str(e)[:300], {"source": c03_gen.PRELUDE}, no_input=True)
-        return
+    names, prelude_rejected = front.setup_prelude(c03_gen.PRELUDE)
+    # a rejected safe callee is incompleteness of the tree under test, not a violation of C03
+    ctx.extra["prelude_rejected"] = prelude_rejected
+    ctx.count("prelude:accepted", len(names))
+    ctx.count("prelude:rejected", len(prelude_rejected))
     drv = LeanDriver("Drivers/C03.lean")
     interp = SafeInterp(ctx, ctx.scale(20, 60))
     ck = Checker(ctx, front, drv, interp)
     thorough = not ctx.quick
-    t_budget = ctx.scale(120, 800)
+    t_budget = ctx.scale(110, 800)
+    t_start = ctx.elapsed()   # the budget of the stream does not include waiting for the Lean build
     try:
         # the prelude procedures themselves are accepted programs
         import exo_build
@@ -635,7 +647,7 @@ def run(ctx):
         # 2b. generated stream
         n_prog = ctx.scale(260, 1500)
         k = 0
-        while k < n_prog and ctx.elapsed() < t_budget:
+        while k < n_prog and ctx.elapsed() - t_start < t_budget:
             nm = None
             r = ctx.rng.random()
             if r < 0.45:
@@ -651,7 +663,7 @@ def run(ctx):
         from pool import POOL
 
         for name, src in sorted(POOL.items()):
-            if "{" in src or "Cfg" in src or "config" in src or ctx.elapsed() > t_budget * 1.15:
+            if "{" in src or "Cfg" in src or "config" in src or ctx.elapsed() - t_start > t_budget * 1.15:
                 continue
             try:
                 mod = exo_build.build_module(src)
